@@ -241,7 +241,7 @@ class SimpleARTMAP(BaseARTMAP):
 
         """
         # Check that X and y have correct shape
-        SimpleARTMAP.validate_data(self, X, y)
+        X, y = SimpleARTMAP.validate_data(self, X, y)
         # Store the classes seen during fit
         self.classes_ = unique_labels(y)
         self.labels_ = np.copy(y)
@@ -297,7 +297,7 @@ class SimpleARTMAP(BaseARTMAP):
             The partially fitted model.
 
         """
-        SimpleARTMAP.validate_data(self, X, y)
+        X, y = SimpleARTMAP.validate_data(self, X, y)
         if not hasattr(self, "labels_"):
             self.labels_ = np.copy(y)
             self.module_a.W = []
